@@ -31,6 +31,371 @@ def exact_cell(nrows, ncols, xll, yll, csz, x, y):
     return (nrows - 1 - fy) * ncols + fx, margin
 
 
+# ----------------------------------------------------------------------------
+# Stored representations of the arguments (the quantifier's "all valid and invalid cell
+# numbers", "points"): the same number / point handed over as a Python scalar, a numpy scalar
+# of any integer type, a 0-d array, a list, a tuple, arrays of every integer / float type,
+# byte order and memory layout.  `core` = representations the library itself uses when it calls
+# these functions (Grid.clip, xvalues, catchment code): an exception there for a valid cell or a
+# finite point is a failure; elsewhere an exception only means "representation not accepted".
+
+def _fits(vals, dt):
+    if dt is None:
+        return all(-2 ** 63 <= v < 2 ** 63 for v in vals)
+    info = np.iinfo(dt)
+    return all(info.min <= v <= info.max for v in vals)
+
+
+def _strided(a, k=3):
+    buf = np.zeros((len(a) * k,) + a.shape[1:], dtype=a.dtype)
+    buf[::k] = a
+    return buf[::k]
+
+
+def _readonly(a):
+    a = np.array(a)
+    a.setflags(write=False)
+    return a
+
+
+def _colstrided(P):
+    buf = np.full((len(P), 5), -7.25)
+    buf[:, 1::2] = P
+    return buf[:, 1::2]
+
+
+# name, integer type limiting the values (None = int64 range), builder(int), core
+SCALAR_REPS = [
+    ("python int", None, int, True),
+    ("numpy.int64 scalar", np.int64, np.int64, True),
+    ("numpy.int32 scalar", np.int32, np.int32, False),
+    ("numpy.int16 scalar", np.int16, np.int16, False),
+    ("numpy.int8 scalar", np.int8, np.int8, False),
+    ("numpy.uint8 scalar", np.uint8, np.uint8, False),
+    ("numpy.uint16 scalar", np.uint16, np.uint16, False),
+    ("numpy.uint32 scalar", np.uint32, np.uint32, False),
+    ("numpy.uint64 scalar", np.int64, lambda c: np.uint64(c) if c >= 0 else np.int64(c), False),
+    ("numpy.intp scalar", np.intp, np.intp, False),
+    ("0-d int64 array", np.int64, lambda c: np.array(c, dtype=np.int64), False),
+    ("0-d int32 array", np.int32, lambda c: np.array(c, dtype=np.int32), False),
+    ("0-d big-endian int64 array", np.int64, lambda c: np.array(c, dtype=">i8"), False),
+]
+
+# name, integer type limiting the values, builder(list of int), core
+ARRAY_REPS = [
+    ("int64 array", np.int64, lambda L: np.array(L, dtype=np.int64), True),
+    ("list", None, list, True),
+    ("tuple", None, tuple, False),
+    ("list of numpy.int64 scalars", np.int64, lambda L: [np.int64(v) for v in L], False),
+    ("int32 array", np.int32, lambda L: np.array(L, dtype=np.int32), False),
+    ("int16 array", np.int16, lambda L: np.array(L, dtype=np.int16), False),
+    ("int8 array", np.int8, lambda L: np.array(L, dtype=np.int8), False),
+    ("uint8 array", np.uint8, lambda L: np.array(L, dtype=np.uint8), False),
+    ("uint32 array", np.uint32, lambda L: np.array(L, dtype=np.uint32), False),
+    ("big-endian int64 array", np.int64, lambda L: np.array(L, dtype=">i8"), False),
+    ("big-endian int32 array", np.int32, lambda L: np.array(L, dtype=">i4"), False),
+    ("strided int64 view", np.int64, lambda L: _strided(np.array(L, dtype=np.int64)), False),
+    ("strided int32 view", np.int32, lambda L: _strided(np.array(L, dtype=np.int32), 2), False),
+    ("reversed int64 view", np.int64, lambda L: np.array(L[::-1], dtype=np.int64)[::-1], False),
+    ("read-only int64 array", np.int64, lambda L: _readonly(np.array(L, dtype=np.int64)), False),
+    ("object array of python ints", None, lambda L: np.array(L, dtype=object), False),
+]
+
+# name, builder(float64 C array of shape (k, 2)), core.  The oracle is evaluated on the values the
+# representation holds (np.asarray(obj, float64)): float32 rounds the points, everything else is exact.
+COORD_REPS = [
+    ("float64 array", lambda P: np.array(P), True),
+    ("nested list", lambda P: P.tolist(), True),
+    ("tuple of tuples", lambda P: tuple(map(tuple, P.tolist())), False),
+    ("list of 1-d arrays", lambda P: [row.copy() for row in P], False),
+    ("Fortran-ordered array", lambda P: np.asfortranarray(P), False),
+    ("transposed view", lambda P: np.ascontiguousarray(P.T).T, False),
+    ("row-strided view", lambda P: _strided(np.array(P), 2), False),
+    ("column-strided view", _colstrided, False),
+    ("reversed rows view", lambda P: np.array(P[::-1])[::-1], False),
+    ("big-endian float64 array", lambda P: P.astype(">f8"), False),
+    ("read-only array", _readonly, False),
+    ("float32 array", lambda P: P.astype(np.float32), False),
+    ("longdouble array", lambda P: P.astype(np.longdouble), False),
+    ("object array of python floats", lambda P: np.array(P.tolist(), dtype=object), False),
+]
+
+# one point
+POINT_REPS = [
+    ("1-d float64 array", lambda x, y: np.array([x, y]), True),
+    ("list [x, y]", lambda x, y: [x, y], True),
+    ("tuple (x, y)", lambda x, y: (x, y), False),
+    ("list of numpy.float64 scalars", lambda x, y: [np.float64(x), np.float64(y)], False),
+    ("1-d strided view", lambda x, y: np.array([x, 0., y, 0.])[::2], False),
+    ("nested list [[x, y]]", lambda x, y: [[x, y]], True),
+]
+
+
+def draw_geometry(rng, csz=None):
+    """A geometry inside the property's quantifier (cell size, origin relative to the cell size)."""
+    if csz is None:
+        csz = rng.choice([1.0, 0.5, 2.0, 0.05, 10 ** rng.uniform(-4, 4), 0.025, 1e-4, 1e4])
+    off = rng.choice([0, 1, 10, 1e2, 1e4])
+    xll = rng.choice([0.0, rng.uniform(-1, 1) * off * csz, float(round(rng.uniform(-1, 1) * off)) * csz])
+    yll = rng.choice([0.0, rng.uniform(-1, 1) * off * csz, -off * csz])
+    return xll, yll, csz
+
+
+def live_geometry(g):
+    """The geometry of a Grid object = its public attributes, as they are now."""
+    return int(g.nrows), int(g.ncols), float(g.xllcorner), float(g.yllcorner), float(g.cellsize)
+
+
+def draw_points(rng, G, nin, nout, special=True):
+    nrows, ncols, xll, yll, csz = G
+    pts = []
+    for _k in range(nin):  # inside footprints
+        r, c = rng.randrange(nrows), rng.randrange(ncols)
+        u = rng.choice([1e-9, 1e-6, 0.5, rng.random(), 1 - 1e-9, 1 - 1e-6])
+        v = rng.choice([1e-9, 1e-6, 0.5, rng.random(), 1 - 1e-9, 1 - 1e-6])
+        pts.append((xll + csz * (c + u), yll + csz * (nrows - 1 - r + v)))
+    for _k in range(nout):  # outside, eight directions
+        d = rng.choice([1e-9, 1e-6, 1e-3, 0.3, 0.5, 0.999, 1.0, 1.5, 7.0, 1e3, 1e6])
+        sx, sy = rng.choice([(-1, 0), (1, 0), (0, -1), (0, 1), (-1, -1), (-1, 1), (1, -1), (1, 1)])
+        u, v = rng.random() * ncols, rng.random() * nrows
+        px = xll + csz * (-d if sx < 0 else ncols + d if sx > 0 else u)
+        py = yll + csz * (-d if sy < 0 else nrows + d if sy > 0 else v)
+        pts.append((px, py))
+    if special:
+        pts += [(float("nan"), yll), (xll + csz / 2, float("inf")), (-float("inf"), yll + csz / 2),
+                (1e300, 1e300), (-1e300, yll + csz / 2)]
+    return pts
+
+
+def draw_ids(rng, G, nvalid, ninvalid, far=True):
+    nrows, ncols = G[0], G[1]
+    n = nrows * ncols
+    inv = [-1, -2, -ncols, -n, n, n + 1, n + ncols, 10 * n + 3]
+    if far:
+        inv += [-2 ** 40, 2 ** 40, 2 ** 63 - 1, -2 ** 63, 2 ** 31, -2 ** 31 - 1]
+    val = [0, ncols - 1, n - ncols, n - 1, n // 2]
+    return ([rng.choice(val + [rng.randrange(n)] * 3) for _ in range(nvalid)]
+            + [rng.choice(inv) for _ in range(ninvalid)])
+
+
+class Obs:
+    """Observers: one call of a cell function on one Grid object, the correspondence case(s) for the
+    geometry the object has NOW, and the oracle of the property's clauses."""
+
+    def __init__(self, ctx):
+        self.ctx = ctx
+        self.terms, self.replays = [], []
+        self.orc_fail = set()
+        self.unsupported = {}
+
+    def add(self, term, replay, sig):
+        self.terms.append(term)
+        self.replays.append(replay)
+        self.ctx.count(sig)
+        if len(self.terms) % 700 == 1:
+            self.ctx.sample(replay)
+        return len(self.terms) - 1
+
+    def fail(self, idx, key, what):
+        self.orc_fail.add(idx)
+        self.ctx.failure(key, self.replays[idx], what)
+
+    def fail_plain(self, key, replay, what, sig):
+        """A failure with no model case of its own (exception, malformed result)."""
+        i = self.add("GRowcol 1%Z 1%Z 0%Z 0%Z 0%Z", replay, sig)
+        self.fail(i, key, what)
+
+    def _call(self, fn, name, f, arg, values, all_invalid, G, rep, core, extra):
+        """Run f(arg).  Returns (True, result) or (False, None) when the call raised and that is
+        acceptable (an error is a way of flagging invalid numbers; a representation that is not one of
+        the library's own may be refused)."""
+        geom = {"nrows": G[0], "ncols": G[1], "xll": G[2], "yll": G[3], "csz": G[4]}
+        cm.mark(dict(geom, call=name, arg=repr(arg)[:300], representation=rep, **extra))
+        try:
+            with np.errstate(all="ignore"):
+                return True, f(arg)
+        except Exception as e:
+            self.ctx.count((name, "raised", all_invalid, rep))
+            if all_invalid:
+                return False, None
+            if core:
+                self.fail_plain(f"C07/{name}/error",
+                                dict(geom, call=name, arg=repr(arg)[:300], values=values, representation=rep,
+                                     error=f"{type(e).__name__}: {e}"[:300], **extra),
+                                f"{name}({values!r} given as {rep}) raised {type(e).__name__}: {str(e)[:120]} "
+                                f"on a {G[0]}x{G[1]} grid", (name, "error"))
+            else:
+                self.unsupported[(name, rep)] = self.unsupported.get((name, rep), 0) + 1
+            return False, None
+
+    # ---- cell2coord
+    def cell2coord(self, g, G, arg, ids, rep="int64 array", core=True, extra=None, roundtrip=True):
+        extra = extra or {}
+        nrows, ncols, xll, yll, csz = G
+        n = nrows * ncols
+        ok, res = self._call(g, "cell2coord", g.cell2coord, arg, ids,
+                             all(not 0 <= i < n for i in ids), G, rep, core, extra)
+        if not ok:
+            return
+        geom = {"nrows": nrows, "ncols": ncols, "xll": xll, "yll": yll, "csz": csz}
+        try:
+            xy = np.asarray(res, dtype=np.float64).reshape(-1, 2)
+        except Exception:
+            xy = np.zeros((0, 2))
+        if len(xy) != len(ids):
+            self.fail_plain("C07/cell2coord/not-centre",
+                            dict(geom, call="cell2coord", idx=ids, representation=rep, impl=repr(res)[:300], **extra),
+                            f"cell2coord({ids!r} given as {rep}) does not return one (x, y) per cell: {res!r}"[:300],
+                            ("c2c", "shape"))
+            return
+        head = f"{cm.coq_z(nrows)} {cm.coq_z(ncols)} {cm.coq_float(xll)} {cm.coq_float(yll)} {cm.coq_float(csz)}"
+        for idx, (x, y) in zip(ids, xy):
+            x, y = float(x), float(y)
+            i = self.add(f"GCell2coord {head} {cm.coq_z(idx)} {cm.coq_float(x)} {cm.coq_float(y)}",
+                         dict(geom, call="cell2coord", idx=idx, representation=rep, impl=[x, y], **extra),
+                         ("c2c", 0 <= idx < n, nrows == 1, ncols == 1, rep, bool(extra)))
+            as_rep = "" if rep == "int64 array" else f" given as {rep}"
+            if 0 <= idx < n:
+                r, c = idx // ncols, idx % ncols
+                ex = Fr(xll) + Fr(csz) * (c + Fr(1, 2))
+                ey = Fr(yll) + Fr(csz) * (nrows - 1 - r + Fr(1, 2))
+                tol = 1e-12 * (abs(xll) + abs(yll) + csz * (nrows + ncols))
+                if not (math.isfinite(x) and math.isfinite(y)
+                        and abs(Fr(x) - ex) <= tol and abs(Fr(y) - ey) <= tol):
+                    self.fail(i, "C07/cell2coord/not-centre",
+                              f"cell2coord({idx}{as_rep}) = {(x, y)} is not the cell centre {(float(ex), float(ey))} "
+                              f"(grid {nrows}x{ncols} xll={xll!r} yll={yll!r} csz={csz!r})")
+                elif roundtrip:
+                    back = int(g.coord2cell(np.array([[x, y]]))[0])
+                    self.ctx.count()
+                    if back != idx:
+                        self.fail(i, "C07/roundtrip", f"coord2cell(cell2coord({idx}{as_rep})) = {back}")
+            elif not (math.isnan(x) and math.isnan(y)):
+                self.fail(i, "C07/cell2coord/invalid-cell",
+                          f"cell2coord({idx}{as_rep}) = {(x, y)} for an invalid cell "
+                          f"(grid {nrows}x{ncols}: cells 0..{n - 1})")
+
+    # ---- cell2rowcol
+    def cell2rowcol(self, g, G, arg, ids, rep="int64 array", core=True, extra=None):
+        extra = extra or {}
+        nrows, ncols = G[0], G[1]
+        n = nrows * ncols
+        ok, res = self._call(g, "cell2rowcol", g.cell2rowcol, arg, ids,
+                             all(not 0 <= i < n for i in ids), G, rep, core, extra)
+        if not ok:
+            return
+        try:
+            rc = np.asarray(res).reshape(-1, 2)
+            rc = [(int(r), int(c)) for r, c in rc]
+        except Exception:
+            rc = []
+        if len(rc) != len(ids):
+            self.fail_plain("C07/cell2rowcol/wrong",
+                            {"call": "cell2rowcol", "shape": [nrows, ncols], "idx": ids, "representation": rep,
+                             "impl": repr(res)[:300], **extra},
+                            f"cell2rowcol({ids!r} given as {rep}) does not return one (row, col) per cell: {res!r}"[:300],
+                            ("rowcol", "shape"))
+            return
+        for idx, (r, c) in zip(ids, rc):
+            i = self.add(f"GRowcol {cm.coq_z(nrows)} {cm.coq_z(ncols)} {cm.coq_z(idx)} {cm.coq_z(r)} {cm.coq_z(c)}",
+                         {"call": "cell2rowcol", "shape": [nrows, ncols], "idx": idx, "representation": rep,
+                          "impl": [r, c], **extra},
+                         ("rowcol", 0 <= idx < n, nrows == 1, ncols == 1, rep, bool(extra)))
+            want = (idx // ncols, idx % ncols) if 0 <= idx < n else (-1, -1)
+            if (r, c) != want:
+                as_rep = "" if rep == "int64 array" else f" given as {rep}"
+                self.fail(i, "C07/cell2rowcol/wrong", f"cell2rowcol({idx}{as_rep}) on {nrows}x{ncols} -> {(r, c)}")
+
+    # ---- neighbours
+    def neighbours(self, g, G, arg, idx, rep="python int", extra=None):
+        extra = extra or {}
+        nrows, ncols = G[0], G[1]
+        n = nrows * ncols
+        cm.mark({"call": "neighbours", "shape": [nrows, ncols], "idx": idx, "representation": rep, **extra})
+        try:
+            ng = [int(v) for v in g.neighbours(arg)]
+        except ValueError:
+            ng = None
+        i = self.add(f"GNeigh {cm.coq_z(nrows)} {cm.coq_z(ncols)} {cm.coq_z(idx)} "
+                     f"{cm.coq_option(ng, cm.coq_zlist)}",
+                     {"call": "neighbours", "shape": [nrows, ncols], "idx": idx, "representation": rep,
+                      "impl": ng, **extra},
+                     ("neigh", ng is None, nrows == 1, ncols == 1, rep, bool(extra)))
+        as_rep = "" if rep == "python int" else f" given as {rep}"
+        if (ng is None) != (not 0 <= idx < n):
+            self.fail(i, "C07/neighbours/invalid-cell", f"neighbours({idx}{as_rep}) on {nrows}x{ncols} -> {ng}")
+        elif ng is not None:
+            r0, c0 = idx // ncols, idx % ncols
+            want = []
+            for iy in (-1, 0, 1):
+                for ix in (-1, 0, 1):
+                    r, c = r0 + iy, c0 + ix
+                    want.append(-1 if (ix == 0 and iy == 0) or not (0 <= r < nrows and 0 <= c < ncols)
+                                else r * ncols + c)
+            if ng != want:
+                self.fail(i, "C07/neighbours/wrong", f"neighbours({idx}{as_rep}) on {nrows}x{ncols} -> {ng}")
+
+    # ---- coord2cell
+    def coord2cell(self, g, G, arg, pts, rep="float64 array", core=True, extra=None):
+        """pts = the points as the representation holds them (float64 values)."""
+        extra = extra or {}
+        nrows, ncols, xll, yll, csz = G
+        geom = {"nrows": nrows, "ncols": ncols, "xll": xll, "yll": yll, "csz": csz}
+        ok, res = self._call(g, "coord2cell", g.coord2cell, arg, [list(p) for p in pts], False, G, rep, core, extra)
+        if not ok:
+            return
+        try:
+            got = [int(v) for v in np.asarray(res).reshape(-1)]
+        except Exception:
+            got = []
+        if len(got) != len(pts):
+            self.fail_plain("C07/coord2cell/inside-wrong-cell",
+                            dict(geom, call="coord2cell", points=[list(p) for p in pts], representation=rep,
+                                 impl=repr(res)[:300], **extra),
+                            f"coord2cell of {len(pts)} point(s) given as {rep} does not return one cell per point: "
+                            f"{res!r}"[:300], ("p2c", "shape"))
+            return
+        head = f"{cm.coq_z(nrows)} {cm.coq_z(ncols)} {cm.coq_float(xll)} {cm.coq_float(yll)} {cm.coq_float(csz)}"
+        for (x, y), cell in zip(pts, got):
+            x, y = float(x), float(y)
+            want, margin = exact_cell(nrows, ncols, xll, yll, csz, x, y)
+            cls = ("nonfinite" if margin is None else "outside" if want < 0 else "inside",
+                   None if margin is None else margin < 1e-5, nrows == 1, ncols == 1, rep, bool(extra))
+            i = self.add(f"GCoord2cell {head} {cm.coq_float(x)} {cm.coq_float(y)} {cm.coq_z(cell)}",
+                         dict(geom, call="coord2cell", point=[x, y], representation=rep, impl=cell, exact=want,
+                              **extra), ("p2c",) + cls)
+            scale = max(abs(xll), abs(yll), abs(x) if math.isfinite(x) else 0,
+                        abs(y) if math.isfinite(y) else 0) / csz
+            safe = margin is None or margin > 1e-9 + 4e-16 * scale
+            if safe and cell != want:
+                side = "outside-maps-to-cell" if want < 0 else "inside-wrong-cell"
+                as_rep = "" if rep == "float64 array" else f" given as {rep}"
+                self.fail(i, f"C07/coord2cell/{side}",
+                          f"coord2cell({x!r},{y!r}{as_rep}) = {cell}, exact answer {want} "
+                          f"(grid {nrows}x{ncols} xll={xll!r} yll={yll!r} csz={csz!r})")
+
+    # ---- xvalues / yvalues
+    def xyvalues(self, g, G, extra=None):
+        extra = extra or {}
+        nrows, ncols, xll, yll, csz = G
+        geom = {"nrows": nrows, "ncols": ncols, "xll": xll, "yll": yll, "csz": csz}
+        cm.mark(dict(geom, call="xvalues/yvalues", **extra))
+        xv, yv = g.xvalues, g.yvalues
+        self.ctx.count(("xvalues", nrows == 1, ncols == 1, bool(extra)))
+        okx = len(xv) == ncols and all(
+            abs(Fr(float(xv[c])) - (Fr(xll) + Fr(csz) * (c + Fr(1, 2)))) <= 1e-12 * (abs(xll) + csz * ncols)
+            for c in range(ncols))
+        oky = len(yv) == nrows and all(
+            abs(Fr(float(yv[r])) - (Fr(yll) + Fr(csz) * (nrows - 1 - r + Fr(1, 2)))) <= 1e-12 * (abs(yll) + csz * nrows)
+            for r in range(nrows))
+        if not (okx and oky):
+            self.fail_plain("C07/xvalues-yvalues",
+                            dict(geom, call="xvalues/yvalues", xvalues=[float(v) for v in xv][:50],
+                                 yvalues=[float(v) for v in yv][:50], **extra),
+                            f"xvalues/yvalues are not the column/row centres of the grid {nrows}x{ncols} "
+                            f"xll={xll!r} yll={yll!r} csz={csz!r}", ("xv",))
+
+
 def run(ctx):
     ctx.rule = ("integer operations: every shape 1..5 x 1..5 (thorough 1..8) and every cell number -2..n+1 "
                 "(exhaustive); coordinates: random shapes up to 40x40, cell sizes 1e-4..1e4, origins up to 1e4 "
